@@ -383,6 +383,7 @@ class Check:
                                           seed=self.seed, tier=self.tier,
                                           how_to_replay=f'./check {self.pid} --replay <this file>'))
             lines.append(f'VIOLATION property={self.pid} replay={path}')
+            lines.append('  what: ' + str(v['what'])[:400].replace('\n', ' '))
             reported += 1
             rc = 1
         for kf, v in known_hit:
@@ -397,6 +398,8 @@ class Check:
                                           note='no concrete failing input was found by the search; the property is no longer shown to hold',
                                           seed=self.seed, tier=self.tier))
             lines.append(f'VIOLATION property={self.pid} replay={path} no-failing-input-found')
+            for o in broken[:3]:
+                lines.append('  broken: ' + o['name'][:200] + ' :: ' + str(o['detail'])[-300:].replace('\n', ' '))
             rc = 1
         ev = dict(
             property_id=self.pid, tier=self.tier, seed=self.seed, level='proof',
